@@ -29,6 +29,7 @@ type Failure struct {
 	Model   string   `json:"model_output"`
 	Impl    []string `json:"impl_observations"`
 	Shrunk  bool     `json:"shrunk"`
+	Index   int      `json:"case_index"` // index of the (unshrunk) case in the run's deterministic case list
 	Oracle  string   `json:"oracle_verdict"`
 	Corresp string   `json:"correspondence_verdict"`
 }
@@ -159,6 +160,7 @@ func main() {
 	out := flag.String("out", "", "report file (JSON)")
 	workers := flag.Int("workers", 14, "model co-processes")
 	list := flag.Bool("list", false, "list properties")
+	only := flag.Int("only", -1, "replay: evaluate only the case with this index of the (seed, tier) run and print it")
 	flag.Parse()
 	if *list {
 		for _, id := range props.IDs() {
@@ -189,6 +191,23 @@ func main() {
 	}
 	cases = append(cases, p.Generate(rng, *tier)...)
 
+	if *only >= 0 {
+		if *only >= len(cases) {
+			fmt.Fprintln(os.Stderr, "no such case index")
+			os.Exit(2)
+		}
+		c := cases[*only]
+		e := evalOne(p, pool, c)
+		fmt.Printf("case %d of %s (seed %d, tier %s, stream %s)\nhistory: %s\nmodel:   %s\n", *only, *prop, *seed, *tier, c.Stream, e.line, e.model)
+		for i, o := range e.got {
+			fmt.Printf("impl[%d]: %s\n", i, o.String())
+		}
+		fmt.Printf("correspondence: %q\noracle: %q\nmodel-error: %q harness-error: %q\n", e.corresp, e.oracle, e.merr, e.herr)
+		if e.failed() {
+			os.Exit(1)
+		}
+		return
+	}
 	rep := &Report{Property: *prop, Tier: *tier, Seed: *seed, Streams: map[string]int{}, Tags: map[string]int{}, Regressions: map[string]string{}, Failures: []Failure{}, Samples: []string{}, VMSample: [][2]string{}}
 
 	// implementation first (sequentially: no assumption about its thread safety), then the model in parallel
@@ -278,7 +297,9 @@ func main() {
 				}
 			}
 		}
-		rep.Failures = append(rep.Failures, mkFailure(c, e, shr))
+		ff := mkFailure(c, e, shr)
+		ff.Index = i
+		rep.Failures = append(rep.Failures, ff)
 	}
 	if nfail > len(rep.Failures) {
 		rep.Failures = append(rep.Failures, Failure{Kind: "summary", Detail: fmt.Sprintf("%d failing cases in total; the first %d are listed", nfail, len(rep.Failures))})
